@@ -424,3 +424,6 @@ def _imputer_history(env, cfg, ctx):
     for g in FEATURES:
         if g != f:
             env.claim('only_requested_features_change', same_term(z[g], x_again[g]))
+
+
+META['explanation'] += " History group: impute, an update that restructures the instance's own leaf, impute again with the same imputer."
